@@ -20,7 +20,7 @@ func refEval(op string, attrs []hx.Attr, in []*ref.T) ([]*ref.T, error) {
 	getf := func(name string, def float32) float32 {
 		for _, a := range attrs {
 			if a.Name == name {
-				return a.F
+				return a.Float()
 			}
 		}
 		return def
@@ -36,7 +36,7 @@ func refEval(op string, attrs []hx.Attr, in []*ref.T) ([]*ref.T, error) {
 	getfs := func(name string) []float32 {
 		for _, a := range attrs {
 			if a.Name == name {
-				return a.Floats
+				return a.FloatList()
 			}
 		}
 		return nil
@@ -152,8 +152,8 @@ func refEval(op string, attrs []hx.Attr, in []*ref.T) ([]*ref.T, error) {
 			case "value_float":
 				return []*ref.T{ref.FromF(ref.F32, []int{}, float64(a.F))}, nil
 			case "value_floats":
-				t := ref.New(ref.F32, len(a.Floats))
-				for i, f := range a.Floats {
+				t := ref.New(ref.F32, len(a.FloatList()))
+				for i, f := range a.FloatList() {
 					t.V[i] = ref.EncF(ref.F32, float64(f))
 				}
 				return []*ref.T{t}, nil
